@@ -32,10 +32,10 @@ type c12Case struct {
 	Nonce      string `json:"nonce"`
 	DelaySec   int64  `json:"delay_sec"` // the code was issued this long ago (<= 290)
 	TokClient  string `json:"tok_client"`
-	Secret     string `json:"secret"`   // right | wrong | absent | other | empty
-	Verifier   string `json:"verifier"` // right | wrong | absent | challenge-itself
-	CredsIn    string `json:"creds_in"` // header | form | header-escaped
-	Redirect   string `json:"redirect"` // same | different | case | trailing
+	Secret     string `json:"secret"`    // right | wrong | absent | other | empty
+	Verifier   string `json:"verifier"`  // right | wrong | absent | challenge-itself
+	CredsIn    string `json:"creds_in"`  // header | form | header-escaped
+	Redirect   string `json:"redirect"`  // same | different | case | trailing
 	CodeKind   string `json:"code_kind"` // fresh | expired | tampered | resigned-foreign | access-token | id-token | session-cookie | other-client-code
 	Signer     string `json:"signer"`
 }
